@@ -51,7 +51,7 @@ let canon ?(blocks=true) ?(sortd=false) sizes sortx (tr : tev list) =
   Stdlib.List.iter (fun e -> match e with
     | TDestroy l -> xrun := o l :: !xrun
     | (TAlloc _ | TDealloc _) when not blocks -> ()
-    | TDealloc (x, _) when sortd -> flush (); drun := b x :: !drun
+    | TDealloc (x, _) when sortd -> drun := b x :: !drun
     | _ -> flush (); flushd ();
       (match e with
        | TCopy (d, s) -> let s' = o s in let d' = o d in toks := Printf.sprintf "C%d.%d" d' s' :: !toks
@@ -186,6 +186,12 @@ let () = iter_lines (fun line ->
     let kinds = Stdlib.List.filter_map (function TCopy _ -> Some "C" | TMove _ -> Some "M" | TDestroy _ -> Some "X" | TFail -> Some "F" | _ -> None)
         (Stdlib.List.rev s1.trace) in
     print_endline ("kinds" ^ String.concat "" (Stdlib.List.map (fun k -> " " ^ k) kinds) ^ " ! 0 0 0")
+  | ["sa2"; n; k] ->     (* 4 items of 8 bytes per segment; pointer array: Array growth policy (<=2 -> 4, else doubled), 8 bytes per pointer *)
+    let pgrow cap need = let c = int_of_nat cap and nd = int_of_nat need in
+      nat_of_int (max (if c <= 2 then 4 else 2 * c) nd) in
+    print_result ~sortd:true true true
+      (Effects5.sa2_ctor_then_destroy mgr (z 32) (z 8) (fun _ -> nat_of_int 4) pgrow (z (-1)) (nat_of_int (int_of_string n))
+         (Effects2Proofs.rows_init (sched_of (int_of_string k))))
   | ["sa"; n; c] ->      (* 4 items per segment: the c-th copy comes after c/4 + 1 segment allocations *)
     let c = int_of_string c in
     let k = if c < 0 then -1 else c + c / 4 + 1 in
